@@ -330,6 +330,12 @@ def run(ctx):
 
     _wide05(ctx, "C05.6")
     ctx.floor("C05.6", 2)
+    # ---- C05.7 the stored log-likelihood / log-prior is the model's value ------------------------------------------------
+    # every stored logL / logP comes out of one of Model's batch wrappers (C05.4 / C09.1): the wrapper must hand back what
+    # the user's function returned, at most cast to the configured dtype.  Shared with C10.4.
+    from .C10 import wrapper_values_rule as _wrap05
+
+    _wrap05(ctx, "C05.7")
     ctx.assumptions += ["numeric equality on real runs and sample counts are not decided; only which state object each reported quantity is read from"]
 
 
@@ -416,6 +422,7 @@ _F = "nessai/flowsampler.py"
 _N = "nessai/samplers/nestedsampler.py"
 _E = "nessai/evidence.py"
 MUTANTS = [
+    {"id": "likelihood-clipped-on-return", "file": "nessai/model.py", "old": "        return log_likelihood.astype(config.livepoints.logl_dtype)", "new": "        return np.nan_to_num(log_likelihood.astype(config.livepoints.logl_dtype))", "expect": "C05.7"},
     {"id": "prior-aliased-and-modified", "file": "nessai/proposal/rejection.py", "old": "        log_q = self.log_proposal(x)\n        log_w = log_p - log_q\n", "new": "        log_w = np.asarray(log_p, dtype=float)\n        log_w -= self.log_proposal(x)\n", "expect": "never modified in place"},
     {"id": "final-state-none-without-iid", "file": _I, "old": "        if self._final_samples is not None:\n            return self._final_samples.state\n        else:\n            return self._ordered_samples.state", "new": "        if self._final_samples is not None:\n            return self._final_samples.state\n        elif self.iid_samples is not None:\n            return self.iid_samples.state\n        else:\n            return None", "expect": "draw_iid_live=False"},
     {"id": "dict-evidence-from-training-set", "file": _I, "old": '        d["log_evidence"] = self.final_log_evidence\n', "new": '        d["log_evidence"] = self.training_samples.state.log_evidence\n', "expect": "result['log_evidence']"},
